@@ -120,8 +120,8 @@ def check(prog, rep, tier):
     rep.rule('R17.e', 'every extended-community code ExtCommunity.construct handles encodes to exactly 8 octets')
     rep.rule('R17.f', 'read coverage: for every extended-community code both directions handle, the decoder reads '
                       'every value octet in which the encoder places a given value')
-    rep.rule('R17.g', 'range guards of the community encoders do not reject the largest value of a field the '
-                      'decoder can render (x >= 2**k - 1 where x > 2**k - 1 is meant)')
+    rep.rule('R17.g', 'field boundaries: no comparison in the community codecs or the REST recombination splits a range '
+                      'between 2**k - 2 and 2**k - 1 (the largest value of a field must be on the fitting side)')
     rep.assumptions += ['float rounding of traffic-rate and numeric ranges are not decided']
     cm = prog.module(CONS)
     STR = prog.fold(cm.assigns['BGP_EXT_COM_STR_DICT'], cm)
@@ -275,22 +275,10 @@ def check(prog, rep, tier):
                     found='extended community %s encodes to %s octets' % (code, sorted(sizes)), expected='8', key=key)
     read_coverage(prog, rep, written, dec)
     # ---------------------------------------------------------------- R17.g
-    nf, sites = common.boundary_guards(
-        prog, lambda fn: fn.module.name.rsplit('.', 1)[-1] in ('community', 'extcommunity', 'largecommunity')
-        and fn.module.name.startswith('yabgp.message.attribute'), extra_source=common.BOUNDARY_WITNESS)
-    wit = [x for x in sites if x[0] is None]
-    if not wit:
-        raise AnalysisError('R17.g: the detector does not fire on its built-in witness')
-    for fn, c, amax in sites:
-        if fn is None:
-            continue
-        key = 'guard:%s:%s' % (fn.qualname, src_of(c))
-        rep.bad('R17.g', key, file=fn.file, line=c.lineno, func=fn.qualname,
-                found='%s raises for %d, the largest value of a %d-octet field: the decoder renders it, the encoder '
-                      'refuses it' % (src_of(c), amax + 1, common._FIELD_MAX[amax + 1]),
-                expected='reject only values that do not fit the field', key=key)
-    if not [x for x in sites if x[0] is not None]:
-        rep.ok('R17.g', 'range-guards', found='%d functions scanned, witness fires' % nf)
+    common.report_boundary_splits(
+        prog, rep, 'R17.g', lambda fn: (fn.module.name.rsplit('.', 1)[-1] in ('community', 'extcommunity', 'largecommunity')
+                                        and fn.module.name.startswith('yabgp.message.attribute'))
+        or fn.module.name == 'yabgp.api.v1')
 
 
 def read_coverage(prog, rep, written, dec_codes):
